@@ -1,6 +1,8 @@
 import XpmVerif.Proofs.SerialValues
 import XpmVerif.Proofs.SerialGen2
+import XpmVerif.Proofs.SerialData
 import XpmVerif.Generated.SerialFlags
+import XpmVerif.Generated.SerialKeys
 /-! C12 — saving and loading a configuration graph loses nothing.
 
     Model: Model/Serial.lean (M5) — `serialize` (`__get_objects__`: post-order walk with the
@@ -29,7 +31,8 @@ open XpmVerif.Ident XpmVerif.Serial
     source restores (`reloadNode`: see `load_serialize_exact` for when this is the identity).
     Hypotheses (`NodeOk`): the class of each needed node is in the library with the node's
     declarations, argument names are distinct, required arguments have no default (both enforced by
-    `Argument.__init__`), and no dict value has a key `"type"` (finding F9, see `dict_type_key_witness`). -/
+    `Argument.__init__`).  Dictionaries with a key `"type"` are included: they are written wrapped
+    (`dict_type_key_round_trip`; finding F9, fixed by 738540e, see `dict_type_key_witness` for the behaviour before). -/
 theorem load_serialize_iso (fl : Flags) (lib : List Cls) (sg : SGraph) (roots : List Nat)
     (hwf : WF sg.g) (hr : ∀ r ∈ roots, r < sg.g.size)
     (hok : ∀ n, Needed sg.g roots n → NodeOk lib sg n) :
@@ -99,12 +102,12 @@ theorem reload_identifier_defaults_kept {D : Type} (hc : HC D) (fl : Flags) (lib
 /-- **State dictionaries**: `from_state_dict (state_dict v)` gives back the structure `v` (same
     references) together with the loaded objects of `load_serialize_iso`. -/
 theorem state_dict_round_trip (fl : Flags) (lib : List Cls) (sg : SGraph) (v : Val)
-    (hwf : WF sg.g) (hk : noTypeKey v = true) (hr : ∀ r ∈ cfgRefs v, r < sg.g.size)
+    (hwf : WF sg.g) (hr : ∀ r ∈ cfgRefs v, r < sg.g.size)
     (hok : ∀ n, Needed sg.g (cfgRefs v) n → NodeOk lib sg n) :
     ∃ L, fromStateDict fl lib (stateDict fl lib sg v) = .ok (L, v) ∧
       ∀ n, Needed sg.g (cfgRefs v) n →
         lookupObj n L = some { cname := sg.cls n, node := reloadNode fl (sg.g.node n) } := by
-  obtain ⟨L, hl, _, hn⟩ := fromStateDict_stateDict fl lib sg v hwf hk hr hok
+  obtain ⟨L, hl, _, hn⟩ := fromStateDict_stateDict fl lib sg v hwf hr hok
   obtain ⟨_, hiff, _, _⟩ := serialOrder_spec sg.g (cfgRefs v) hwf hr
   exact ⟨L, hl, fun n h => hn n ((hiff n).2 h)⟩
 
@@ -143,25 +146,99 @@ theorem second_generation_exact {D : Type} (hc : HC D) (fl : Flags) (lib : List 
   have hroots : ∀ r ∈ [root], r < sg.g.size := by intro r h; simp at h; subst h; exact hr
   exact ⟨reloadTwice_exact fl lib sg [root] hwf hroots hok hm hi, reloadTwice_fullId hc fl lib sg root hwf hr hok hm hi hdn⟩
 
-/-- **Every value survives the JSON encoding** (all type constructors, any nesting): decoding the
-    encoding of a value gives the value back, data paths included. -/
-theorem value_round_trip (ids : List Nat) (isData : Bool) (v : Val) (hk : noTypeKey v = true)
+/-- **Every value survives the JSON encoding** (all type constructors, any nesting, dictionaries with a key
+    `"type"` at any depth included): decoding the encoding of a value gives the value back, data paths included
+    (without a save directory; with one: `C12.datapath_round_trip`). -/
+theorem value_round_trip (ids : List Nat) (isData : Bool) (v : Val)
     (hr : ∀ m ∈ cfgRefs v, m ∈ ids) : decJ ids (encField isData v) = .ok v :=
-  decJ_encField ids isData v hk hr
+  decJ_encField ids isData v hr
 
 /-- **Loaded as runtime objects in the job process, the task code observes exactly the configured
     parameter values**: the values assigned to the runtime objects built from the parameter file of
     `root` are, for every configuration written to the file and every parameter present on it, the
     configured value; a reference is the runtime object of the referenced configuration (C13:
-    exactly one per configuration).  (Tags travel as a plain JSON member next to the definitions and
-    are compared by the correspondence check only.) -/
+    exactly one per configuration).  (Tags: `C12.tags_round_trip`.) -/
 theorem instances_see_values (fl : Flags) (lib : List Cls) (sg : SGraph) (root : Nat)
-    (hwf : WF sg.g) (hr : root < sg.g.size)
-    (hk : ∀ n, Needed sg.g [root] n → ∀ a ∈ (sg.g.node n).args, noTypeKey a.value = true) :
+    (hwf : WF sg.g) (hr : root < sg.g.size) :
     instanceValues (serialize fl lib sg [root])
       = .ok ((serialOrder sg.g [root]).map
           (fun n => (n, ((sg.g.node n).args.filter present).map (fun a => (a.name, a.value))))) :=
-  instanceValues_serialize fl lib sg root hwf hr hk
+  instanceValues_serialize fl lib sg root hwf hr
+
+/-- **Data files survive `save` / `load`** (the `DataPath` part of "loses nothing"; findings C12-N1, N2 — see
+    `datapath_prefix_witness` for the behaviour before the fixes).  `serialization.save(v, dir)` into a directory `base`
+    followed by `serialization.load(dir)` — for every well-formed graph, every value `v` (a configuration, or a
+    list / dictionary structure of configurations) and every file system `fs`, when the source numbers the saved
+    files by definition (`perObject`) and by parameter (`nameByParam`) and `load` forwards its data loader
+    (`loadForwards`; all three are source obligations below: the name of a copy is then `paramName`, a function that
+    is injective on (configuration, parameter) — `Proofs/SerialData.lean` `paramName_inj`, `saved_distinct`) — returns `v` itself and, at every needed configuration `n`, the original object (class, type,
+    every argument, task link, pre-tasks; meta flag and init tasks as `load_serialize_iso`) in which every data
+    argument `a` that held a path now holds `base/<position of n>/<a>` (`placedArg`); that path names a file of the
+    save directory whose content is the content of the original file (both in the directory seen as a map of relative
+    names and in the file system after the save); and two data values are stored in the same file only if they are
+    the same argument of the same configuration (distinct originals ↦ distinct files). -/
+theorem datapath_round_trip (fl : Flags) (dfl : DFlags) (lib : List Cls) (sg : SGraph) (fs : FS) (v : Val) (base : List Nat)
+    (hN1 : dfl.perObject = true) (hN2 : dfl.loadForwards = true) (hN5 : dfl.nameByParam = true)
+    (hwf : WF sg.g) (hr : ∀ r ∈ cfgRefs v, r < sg.g.size)
+    (hok : ∀ n, Needed sg.g (cfgRefs v) n → NodeOk lib sg n) :
+    let order := serialOrder sg.g (cfgRefs v)
+    let place := fun (n : Nat) (a : List Nat) => inDir base (paramName dfl (posOf order n) a)
+    ∃ L, loadSaved fl dfl lib base (save fl dfl lib sg fs v) = .ok (L, v) ∧
+      (∀ n, Needed sg.g (cfgRefs v) n →
+        lookupObj n L = some
+          { cname := sg.cls n,
+            node := { reloadNode fl (sg.g.node n) with
+                      args := ((sg.g.node n).args.map (placedArg dfl base (dataNames lib sg n) (posOf order n))) } }) ∧
+      (∀ n, Needed sg.g (cfgRefs v) n → ∀ a ∈ (sg.g.node n).args, (dataNames lib sg n).contains a.name = true →
+        ∀ s c, a.value = .path s → fsGet fs s = some c →
+          (placedArg dfl base (dataNames lib sg n) (posOf order n) a).value = .path (place n a.name) ∧
+          fsGet (save fl dfl lib sg fs v).dir (paramName dfl (posOf order n) a.name) = some c ∧
+          fsGet (fsAfter base fs (copies dfl lib sg fs order)) (place n a.name) = some c) ∧
+      (∀ n n', Needed sg.g (cfgRefs v) n → Needed sg.g (cfgRefs v) n' → ∀ a a' : List Nat,
+        place n a = place n' a' → n = n' ∧ a = a') := by
+  intro order place
+  obtain ⟨L, hl, hobj⟩ := loadSaved_save fl dfl lib sg fs v base hN2 hN5 hwf hr hok
+  obtain ⟨_, hiff, _, _⟩ := serialOrder_spec sg.g (cfgRefs v) hwf hr
+  refine ⟨L, hl, hobj, ?_, ?_⟩
+  · intro n hn a ha hd s c hs hc
+    have hcont := saved_content dfl lib sg fs order base hN1 hN5
+      (fun m hm => (hok m ((hiff m).1 hm)).names) ((hiff n).2 hn) ha hd hs hc
+    refine ⟨?_, hcont.1, hcont.2⟩
+    simp only [placedArg, hd, hs]
+    rfl
+  · intro n n' hn hn' a a' h
+    exact saved_distinct dfl hN1 order base ((hiff n).2 hn) ((hiff n').2 hn') h
+
+/-- **The source is in the case of `datapath_round_trip`**, and wraps the recorded name of a data path in `Path(…)`
+    (C12-N3), and names a copy after the parameter (seeded change C12g names it after the data file) — source
+    obligations on `Gen.dataFlags`, which is regenerated from `core/objects.py`, `core/context.py` and
+    `core/serialization.py` on every run. -/
+theorem source_data_flags :
+    Gen.dataFlags.perObject = true ∧ Gen.dataFlags.loadForwards = true ∧ Gen.dataFlags.pathWrapped = true ∧
+    Gen.dataFlags.taskDirForwards = true ∧ Gen.dataFlags.nameByParam = true := by
+  decide
+
+/-- **… in the job process** (no data loader, absolute names): a data argument is given a `Path` holding the recorded
+    path — the configured value (`instances_see_values` states it for every argument of every definition). -/
+theorem datapath_job_side (s : List Nat) : jobDataValue Gen.dataFlags s = .path s := by
+  simp [jobDataValue, source_data_flags.2.2.1]
+
+/-- **Tags**: the task code of `root` observes (`task.__tags__`, read from the `"tags"` member of `params.json`)
+    exactly the tags `root.tags()` gave when the file was written — same keys in the same order, same values —
+    for every graph and every assignment of tags (`str`, `int`, `float`, `bool` values) to its configurations. -/
+theorem tags_round_trip (g : Graph) (tg : Nat → Tags) (root : Nat)
+    (h : ∀ n, ∀ x ∈ tg n, isScalar x.2 = true) :
+    jobTags g tg root = .ok (collectTags g tg root) :=
+  decTags_encTags _ (collectTags_scalar g tg root h)
+
+/-- **… and a tag set on the task itself is what the task code observes for that key**, whatever the configurations
+    below it (sub-configurations, pre-tasks, init tasks, producing tasks) are tagged with: `tags()` completes the root
+    last, and `dict.update` lets the last value win. -/
+theorem tags_own_win (g : Graph) (tg : Nat → Tags) (root : Nat) (hwf : WF g) (hr : root < g.size)
+    (hs : ∀ n, ∀ x ∈ tg n, isScalar x.2 = true) (hnd : ((tg root).map (·.1)).Nodup)
+    (k : List Nat) (v : Val) (h : (k, v) ∈ tg root) :
+    ∃ t, jobTags g tg root = .ok t ∧ getTag t k = some v :=
+  ⟨_, tags_round_trip g tg root hs, collectTags_own g tg root hwf hr hnd k v h⟩
 
 /-! ### the hypotheses are needed: kernel-checked witnesses of the findings -/
 
@@ -246,16 +323,32 @@ example : DefaultsNeeded (dg 1).g [0] := by
   subst hm1
   exact ⟨0, List.mem_singleton.2 rfl, .step (b := 1) (by decide) (.refl 1)⟩
 
-/-- F9: a dict value with the key `"type"` cannot be loaded (`Unhandled type`), or comes back as
-    another kind of value (`{"type": "path", "value": "x"}` becomes a path). -/
+/-- F9, behaviour before fix 738540e (the items of a dictionary written as they are, `JVal.obj ks …`): a dict
+    value with the key `"type"` cannot be loaded (`Unhandled type`), or comes back as another kind of value
+    (`{"type": "path", "value": "x"}` becomes a path) — the reader is the current one. -/
 theorem dict_type_key_witness :
-    (match decJ [] (encJ (.dict [kType] [.str [122, 122]])) with
+    (match decJ [] (.obj [kType] [.str [122, 122]]) with
      | .error .unhandledType => true | _ => false) = true ∧
-    (match decJ [] (encJ (.dict [kType, kValue] [.str sPath, .str [120]])) with
-     | .ok (.path s) => s == [120] | _ => false) = true ∧
-    (match load newFlags wlib (serialize newFlags wlib (wg none [] (.dict [kType] [.str [122, 122]])) [0]) with
-     | .error .unhandledType => true | _ => false) = true := by
+    (match decJ [] (.obj [kType, kValue] [.str sPath, .str [120]]) with
+     | .ok (.path s) => s == [120] | _ => false) = true := by
   decide
+
+/-- F9 repaired: the same dictionaries — and a dictionary that imitates the wrapper itself, `{"type": "dict",
+    "value": "x"}`, and one nested in a list inside a wrapped dictionary — come back as themselves, also through
+    `serialize`/`load` of a graph that holds one. -/
+theorem dict_type_key_round_trip :
+    decJ [] (encJ (.dict [kType] [.str [122, 122]])) = .ok (.dict [kType] [.str [122, 122]]) ∧
+    decJ [] (encJ (.dict [kType, kValue] [.str sPath, .str [120]])) = .ok (.dict [kType, kValue] [.str sPath, .str [120]]) ∧
+    decJ [] (encJ (.dict [kType, kValue] [.str sDict, .str [120]])) = .ok (.dict [kType, kValue] [.str sDict, .str [120]]) ∧
+    decJ [] (encJ (.dict [kValue, kType] [.list [.dict [kType] [.int 1]], .none]))
+      = .ok (.dict [kValue, kType] [.list [.dict [kType] [.int 1]], .none]) ∧
+    (match load newFlags wlib (serialize newFlags wlib (wg none [] (.dict [kType] [.str [122, 122]])) [0]) with
+     | .ok l =>
+       (match ((lookupObj 0 l).map (fun o => o.node.args.map (·.value)) : Option (List Val)) with
+        | some [Val.ref 1, Val.dict [k] [Val.str s]] => k == kType && s == [122, 122]
+        | _ => false)
+     | .error _ => false) = true :=
+  ⟨decJ_encJ [] _ (by decide), decJ_encJ [] _ (by decide), decJ_encJ [] _ (by decide), decJ_encJ [] _ (by decide), by decide⟩
 
 /-- non-vacuity of the second generation: a task output (node 1 produced by node 0 … here the link
     1 → 2) keeps its task link through two generations. -/
@@ -283,10 +376,109 @@ example : NodeOk wlib (wg none [2] (.dict [[97]] [.int 1])) 0 :=
     req := by
       intro a ha
       simp [wg, Graph.node] at ha
-      rcases ha with h | h <;> subst h <;> simp,
-    keys := by
+      rcases ha with h | h <;> subst h <;> simp
+  }
+
+/-! data paths: `class S(Config): x: Param[int]; dp: DataPath`, `class T(Task): a: Param[S]; b: Param[S]`;
+    `T(a=S(x=1, dp=/d/f1), b=S(x=2, dp=/d/f2))`, file contents 11 and 22. -/
+def clsS : Cls := { name := [83], typeId := [115], data := [[100, 112]],
+                    args := [{ name := [120], value := .none }, { name := [100, 112], ignored := true, value := .none }] }
+def clsT : Cls := { name := [84], typeId := [116], args := [{ name := [97], value := .none }, { name := [98], value := .none }] }
+def plib : List Cls := [clsS, clsT]
+def f1 : List Nat := [47, 100, 47, 102, 49]
+def f2 : List Nat := [47, 100, 47, 102, 50]
+def pg : SGraph :=
+  { g := { nodes := [ { typeId := [116], args := [{ name := [97], value := .ref 1 }, { name := [98], value := .ref 2 }] },
+                      { typeId := [115], args := [{ name := [120], value := .int 1 }, { name := [100, 112], ignored := true, value := .path f1 }] },
+                      { typeId := [115], args := [{ name := [120], value := .int 2 }, { name := [100, 112], ignored := true, value := .path f2 }] } ] },
+    cname := [[84], [83], [83]] }
+def pfs : FS := [(f1, 11), (f2, 22)]
+def sdir : List Nat := [47, 115]      -- "/s"
+def fixedD : DFlags := { perObject := true, loadForwards := true, pathWrapped := true }
+/-- the content of the file that the loaded object of `n` names in its argument `dp` -/
+def loadedContent (dfl : DFlags) (n : Nat) : Option Nat :=
+  match loadSaved newFlags dfl plib sdir (save newFlags dfl plib pg pfs (.ref 0)) with
+  | .ok (l, _) =>
+    (match ((lookupObj n l).bind (fun o => (o.node.args.find? (fun a => a.name == [100, 112])).map (·.value)) : Option Val) with
+     | some (Val.path s) => fsGet (fsAfter sdir pfs (copies dfl plib pg pfs (serialOrder pg.g [0]))) s
+     | _ => none)
+  | .error _ => none
+
+/-- C12-N1, N2, N3 — behaviour before the fixes, as counter-examples of `datapath_round_trip` / `datapath_job_side`:
+    with the argument name alone as relative name, both data files are stored as `dp`, the second copy overwrites the
+    first and the object loaded for the first configuration names a file with the content of the *second* (22 instead
+    of 11); without the loader forwarded, `load` raises; without `Path(…)`, the job process is given a `str`.
+    With the repaired flags the two objects name `/s/0/dp` and `/s/1/dp` holding 11 and 22. -/
+theorem datapath_prefix_witness :
+    loadedContent { fixedD with perObject := false } 1 = some 22 ∧
+    (save newFlags { fixedD with perObject := false } plib pg pfs (.ref 0)).dir = [([100, 112], 22), ([100, 112], 11)] ∧
+    (match loadSaved newFlags { fixedD with loadForwards := false } plib sdir (save newFlags fixedD plib pg pfs (.ref 0)) with
+     | .error .noDataLoader => true | _ => false) = true ∧
+    (match jobDataValue { fixedD with pathWrapped := false } f1 with | .str s => s == f1 | _ => false) = true ∧
+    loadedContent fixedD 1 = some 11 ∧ loadedContent fixedD 2 = some 22 ∧
+    (save newFlags fixedD plib pg pfs (.ref 0)).dir = [([49, 47, 100, 112], 22), ([48, 47, 100, 112], 11)] := by
+  decide
+
+/-! one configuration with two data files of the same base name: `class E(Config): q: DataPath; d: DataPath`,
+    `E(q=/c/q/m, d=/c/d/m)`, contents 11 and 22. -/
+def clsE : Cls := { name := [69], typeId := [101], data := [[113], [100]],
+                    args := [{ name := [113], ignored := true, value := .none }, { name := [100], ignored := true, value := .none }] }
+def qm : List Nat := [47, 99, 47, 113, 47, 109]
+def dm : List Nat := [47, 99, 47, 100, 47, 109]
+def eg : SGraph :=
+  { g := { nodes := [ { typeId := [101], args := [{ name := [113], ignored := true, value := .path qm },
+                                                 { name := [100], ignored := true, value := .path dm }] } ] },
+    cname := [[69]] }
+def efs : FS := [(qm, 11), (dm, 22)]
+/-- the paths the loaded object holds in `q` and `d`, and the contents of the files they name -/
+def loadedE (dfl : DFlags) : List (List Nat × Option Nat) :=
+  match loadSaved newFlags dfl [clsE] sdir (save newFlags dfl [clsE] eg efs (.ref 0)) with
+  | .ok (l, _) =>
+    (match lookupObj 0 l with
+     | some o => o.node.args.map (fun a => match a.value with
+        | .path s => (s, fsGet (fsAfter sdir efs (copies dfl [clsE] eg efs (serialOrder eg.g [0]))) s)
+        | _ => ([], none))
+     | none => [])
+  | .error _ => []
+
+/-- seeded change C12g (`SerializationContext.serialize` names a copy after the *data file*: `<index>/<file name>`) as a
+    counter-example of `datapath_round_trip` without `nameByParam` — the index still separates the objects, the file
+    name does not separate the parameters of one object: both parameters of `E(q=/c/q/m, d=/c/d/m)` come back as
+    `/s/0/m`, which holds the content of the second file (22), the content 11 is in no file of the directory; named after
+    the parameter (`paramName`, injective on (object, parameter)) they come back as `/s/0/q` ↦ 11 and `/s/0/d` ↦ 22. -/
+theorem datapath_name_witness :
+    baseName qm = [109] ∧ baseName dm = [109] ∧
+    loadedE { fixedD with nameByParam := false } = [([47, 115, 47, 48, 47, 109], some 22), ([47, 115, 47, 48, 47, 109], some 22)] ∧
+    (save newFlags { fixedD with nameByParam := false } [clsE] eg efs (.ref 0)).dir = [([48, 47, 109], 22), ([48, 47, 109], 11)] ∧
+    loadedE fixedD = [([47, 115, 47, 48, 47, 113], some 11), ([47, 115, 47, 48, 47, 100], some 22)] := by
+  decide
+
+/-- non-vacuity of the second save: the loaded value written into a second directory and loaded again names files of
+    the *second* directory that hold the original contents. -/
+example : (match saveLoadTwice newFlags fixedD plib pg pfs (.ref 0) sdir [47, 116] with
+    | .ok (_, _, s2, l2, _) =>
+      (s2.dir, l2.map (fun p => (p.1, (p.2.node.args.find? (fun a => a.name == [100, 112])).map (fun a => match a.value with | .path s => s | _ => []))))
+    | .error _ => ([], [])) =
+    ([([49, 47, 100, 112], 22), ([48, 47, 100, 112], 11)],
+     [(1, some [47, 116, 47, 48, 47, 100, 112]), (2, some [47, 116, 47, 49, 47, 100, 112]), (0, none)]) := by decide
+
+/-- tags: `T` tagged `model=3`, its sub-configuration 1 tagged `model=1, k=True`: the task's own tag wins, `k` is inherited. -/
+example : jobTags pg.g (fun n => if n = 0 then [([109], .int 3)] else if n = 1 then [([109], .int 1), ([107], .bool true)] else []) 0
+    = .ok (collectTags pg.g (fun n => if n = 0 then [([109], .int 3)] else if n = 1 then [([109], .int 1), ([107], .bool true)] else []) 0) :=
+  tags_round_trip _ _ _ (by intro n x hx; by_cases h0 : n = 0 <;> by_cases h1 : n = 1 <;> simp_all <;> rcases hx with rfl | rfl <;> rfl)
+example : (collectTags pg.g (fun n => if n = 0 then [([109], .int 3)] else if n = 1 then [([109], .int 1), ([107], .bool true)] else []) 0).map
+    (fun kv => (kv.1, match kv.2 with | .int i => i | .bool true => 1 | _ => 0)) = [([109], 3), ([107], 1)] := by decide
+
+example : WF pg.g := by
+  intro n hn m hm
+  have : n = 0 ∨ n = 1 ∨ n = 2 := by simp [Graph.size, pg] at hn; omega
+  rcases this with h | h | h <;> subst h <;> simp [succAll, pg, Graph.node, argRefs, cfgRefsL, cfgRefs, optL] at hm <;>
+    simp [Graph.size, pg] <;> omega
+example : NodeOk plib pg 1 :=
+  { cls := ⟨clsS, rfl, rfl, rfl⟩, names := by decide,
+    req := by
       intro a ha
-      simp [wg, Graph.node] at ha
-      rcases ha with h | h <;> subst h <;> decide }
+      simp [pg, Graph.node] at ha
+      rcases ha with h | h <;> subst h <;> simp }
 
 end XpmVerif.C12
